@@ -152,6 +152,7 @@ def source_type(expr, field_ty):
 def conversion(expr, field_ty):
     """Conv for the (single) numeric transformation in expr, None if the expression has no risky token"""
     e = expr
+    e = re.sub(r'(try_from\(.+\))\.unwrap_or_default\(\)', r'\1.unwrap_or(0)', e)      # Result<int, _>::unwrap_or_default() == unwrap_or(0)
     # Option<T> flattened with a default: None is stored as that default and comes back as Some(default)
     mo = re.fullmatch(r'(.+?)\.(unwrap_or_default\(\)|unwrap_or\((.+)\))', e.strip())
     if mo and 'Option' in (field_ty or '') and not RISKY.search(mo.group(1)):
